@@ -29,6 +29,9 @@ def demo_cmd(d, wt):
     if os.path.exists(p):
       dst = os.path.join(wt, 'sandbox', 'grist', '_seed_' + name)
       shutil.copy(p, dst)
+      for extra in glob.glob(os.path.join(d, '*.py')):      # helper modules of the demo
+        if os.path.basename(extra) not in ('demo.py', 'test_demo.py'):
+          shutil.copy(extra, os.path.join(wt, 'sandbox', 'grist', os.path.basename(extra)))
       if name.startswith('test_'):
         return ['/venv/bin/python', '-m', 'pytest', '-q', '-p', 'no:cacheprovider', '-x', dst], dst
       return ['/venv/bin/python', dst], dst
